@@ -51,6 +51,41 @@ def k1_min_max(vals: List[Optional[int]], bound: Optional[int], prec: int, is_ma
     return got == want
 
 
+def k1_precision_dispatch(vals: List[Optional[int]], bound: int, prec: int, is_max: bool, fz: bool) -> bool:
+    """
+    pre: 1 <= len(vals) <= P['rows'] and 0 <= prec < 4
+    pre: any(v is not None for v in vals)
+    post: __return__
+    """
+    # which comparison decides, for each precision: the fuzzy helpers are replaced by a recorder whose answer
+    # is ARBITRARY (fz), so the verdict may depend on it only where the documentation says "fuzzy"
+    import tdda.constraints.baseconstraints as bcm
+    calls = []
+
+    def rec(a, b, eps):
+        calls.append((a, b, eps))
+        return fz
+    saved = (bcm.fuzzy_greater_than, bcm.fuzzy_less_than)
+    bcm.fuzzy_greater_than = rec
+    bcm.fuzzy_less_than = rec
+    try:
+        with symdf.patched(pc):
+            v = _verifier({'c': symdf.int_series(vals)}, epsilon=0.25)
+            C = MaxConstraint if is_max else MinConstraint
+            verify = v.verify_max_constraint if is_max else v.verify_min_constraint
+            got = bool(verify('c', C(bound, precision=PRECS[prec])))
+    finally:
+        bcm.fuzzy_greater_than, bcm.fuzzy_less_than = saved
+    nn = _nn(vals)
+    ext = max(nn) if is_max else min(nn)
+    p = PRECS[prec] or 'fuzzy'
+    if p == 'closed':
+        return calls == [] and got == ((ext <= bound) if is_max else (ext >= bound))
+    if p == 'open':
+        return calls == [] and got == ((ext < bound) if is_max else (ext > bound))
+    return calls == [(ext, bound, 0.25)] and got == fz
+
+
 def k1_sign(vals: List[Optional[int]], s: int, null_value: bool, missing: bool) -> bool:
     """
     pre: len(vals) <= P['rows'] and 0 <= s < 6
@@ -350,6 +385,13 @@ def _obs():
                       'for open precision); null bound => satisfied; absent column => failed',
                       b + '; bound any int or null; precision 4-way; min or max; epsilon 0', param={'rows': rows},
                       timeout=to, tier=tier, stubs=['symdf (pandas double)']))
+        obs.append(Ob('K1', 'k1_precision_dispatch', 'with a non-zero epsilon: closed and open precision never consult '
+                      'the fuzzy comparison and are decided by >= / > (<= / <) on the column extreme; fuzzy (or '
+                      'unspecified) precision is decided by the fuzzy comparison of (extreme, bound, epsilon)',
+                      b + '; bound any int; precision 4-way; min or max; epsilon 0.25; the fuzzy helper answers '
+                      'arbitrarily', param={'rows': rows}, timeout=to, tier=tier,
+                      stubs=['symdf', 'fuzzy_greater_than/fuzzy_less_than -> recorder with arbitrary answer '
+                             '(their arithmetic is K2)']))
         obs.append(Ob('K1', 'k1_sign', 'sign: satisfied iff all non-null values are in the sign class ("null": no '
                       'values at all); null value => satisfied; absent column => failed', b + '; 6 sign classes',
                       param={'rows': rows}, timeout=to, tier=tier, stubs=['symdf']))
